@@ -146,6 +146,7 @@ def run(res, tier, seed):
     for c in cases[:2] + cases[-2:]:
         res.sample({'query': qgen.render_query(c['q'], 'py'), 'A': c['A'], 'B': c['B']})
     engine_corr.run_cases(res, 'C05', cases, 'py', rnd=random.Random(seed + 9))
+    engine_corr.js_leg(res, 'C05', cases, rnd=random.Random(seed + 109))
     direct_oracle(res, cases[:3000])
     partnerless_oracle(res, cases)
     known_finding_witness(res)
